@@ -114,9 +114,10 @@ ShapeI(n, il) ==
 ShapeM(v) ==
   [root |-> IF v = "extAB" THEN RootAttr ELSE Root,
    kids |-> Lead
-            \o (IF v \in {"extA", "extAB"} THEN <<Leaf("mosExternalMetadata", "sch.A", "x:extA")>> ELSE <<>>)
+            \o (IF v \in {"extA", "extAB", "extAA"} THEN <<Leaf("mosExternalMetadata", "sch.A", "x:extA")>> ELSE <<>>)
             \o <<StoryN("S1", "")>>
             \o (IF v \in {"extAB"} THEN <<Leaf("mosExternalMetadata", "sch.B", "x:extB")>> ELSE <<>>)
+            \o (IF v = "extAA" THEN <<Leaf("mosExternalMetadata", "sch.A", "x:extA2")>> ELSE <<>>)      \* the same schema twice
             \o <<StoryN("S2", "")>>
             \o (IF v # "none" THEN <<Leaf("roTrigger", None, "x:trig")>> ELSE <<>>)]
 
